@@ -12,7 +12,8 @@ RUN_IMPORT = "Dom.ViewRun"
 
 RULE = ("case = (npre npost v0 (v1..vn)): a view value v0 drawn from the grammar text | unit | element(tag in p/span/div, "
         "attributes id: Option<String>, hidden: bool, class: String, class:on: bool, style color: String; one child) | "
-        "tuple of 2-3 | Either left/right | Option | Vec | StaticVec | keyed list, every child position type-erased with "
+        "tuple of 2-3 | Either left/right | EitherOf3 | Option | Vec | array [T; 0..3] | StaticVec (= Fragment) | keyed list "
+        "| i32 | &'static str, every child position type-erased with "
         "into_any() (so a change of shape is a change of the underlying type and equal shapes go through the typed "
         "rebuild), nesting depth <= 4 (quick) / 5 (thorough), is built and mounted between npre/npost text siblings, "
         "rebuilt with v1..vn (each either a mutation of the previous value — text/attribute edits, branch switches, "
@@ -46,7 +47,7 @@ LEVEL_NOTE = ("unbounded machine-checked proof (rebuild = fresh render, for ever
 TECHNIQUE = "Coq proof of an executable model + differential correspondence on the native DOM hook"
 
 TEXTS = ["", "a", "b", "cc", "<x>"]
-CLASSES = ["", "a", "b", "a b"]
+CLASSES = ["", "a", "b", "a b", "a", "b", "on", "a on"]
 COLORS = ["red", "blue"]
 IDS = [None, "i", "j"]
 
@@ -57,9 +58,9 @@ def gen_attrs(rng):
 
 
 def gen_view(rng, depth, keyed=False, static=True):
-    kinds = ["text", "text", "unit", "el"]
+    kinds = ["text", "text", "unit", "el", "num", "sstr"]
     if depth > 0:
-        kinds += ["el", "tuple", "either", "opt", "vec", "vec"]
+        kinds += ["el", "tuple", "either", "either3", "opt", "vec", "vec", "array"]
         if static:
             kinds += ["static"]
         if keyed:
@@ -70,6 +71,14 @@ def gen_view(rng, depth, keyed=False, static=True):
         return [0, rng.choice(TEXTS)]
     if k == "unit":
         return [1]
+    if k == "num":
+        return [9, rng.randint(0, 9)]
+    if k == "sstr":
+        return [10, rng.choice(TEXTS)]
+    if k == "either3":
+        return [11, rng.randint(0, 2), sub()]
+    if k == "array":
+        return [12, [sub() for _ in range(rng.choice([0, 1, 2, 2, 3]) if static else rng.choice([1, 2, 2, 3]))]]
     if k == "el":
         child = sub() if depth > 0 else rng.choice([[0, rng.choice(TEXTS)], [1]])
         return [2, rng.randint(0, 2), gen_attrs(rng), child]
@@ -106,6 +115,14 @@ def mutate(rng, v, depth, keyed, static):
         return [0, rng.choice(TEXTS)]
     if t == 1:
         return [1]
+    if t == 9:
+        return [9, rng.randint(0, 9)]
+    if t == 10:
+        return [10, rng.choice(TEXTS)]
+    if t == 11:
+        return [11, v[1] if rng.random() < 0.5 else rng.randint(0, 2), sub(v[2])]
+    if t == 12:
+        return [12, [sub(x) if rng.random() < 0.7 else x for x in v[1]]]
     if t == 2:
         a = list(v[2])
         for _ in range(rng.choice([0, 1, 1, 2])):
@@ -152,14 +169,31 @@ def has(v, code):
         return True
     if v[0] == 2:
         return has(v[3], code)
-    if v[0] in (3, 6, 7):
+    if v[0] in (3, 6, 7, 12):
         return any(has(x, code) for x in v[1])
-    if v[0] == 4:
+    if v[0] in (4, 11):
         return has(v[2], code)
     if v[0] == 5:
         return any(has(x, code) for x in v[1])
     if v[0] == 8:
         return any(has(x[1], code) for x in v[1])
+    return False
+
+
+def nodeless(v):
+    """contains a view that may own no DOM node: a StaticVec / Fragment, or an empty array"""
+    if v[0] == 7 or (v[0] == 12 and not v[1]):
+        return True
+    if v[0] == 2:
+        return nodeless(v[3])
+    if v[0] in (3, 6, 12):
+        return any(nodeless(x) for x in v[1])
+    if v[0] in (4, 11):
+        return nodeless(v[2])
+    if v[0] == 5:
+        return any(nodeless(x) for x in v[1])
+    if v[0] == 8:
+        return any(nodeless(x[1]) for x in v[1])
     return False
 
 
@@ -179,7 +213,7 @@ def generate(rng, tier):
             vs.append(cur)
         npre, npost = rng.choice([(0, 0), (1, 1), (0, 1), (1, 0), (2, 2), (0, 2)])
         uses_keyed = any(has(v, 8) for v in [v0] + vs)
-        kind = "keyed (oracle only)" if uses_keyed else ("with-staticvec" if any(has(v, 7) for v in [v0] + vs) else "core")
+        kind = "keyed (oracle only)" if uses_keyed else ("with-staticvec" if any(nodeless(v) for v in [v0] + vs) else "core")
         yield dict(case=C.norm([npre, npost, v0, vs]), kind=kind, compare=not uses_keyed)
 
 
@@ -192,6 +226,14 @@ def valid_view(v, depth=0):
             return len(v) == 2 and isinstance(v[1], list) and all(isinstance(b, int) and 0 <= b < 256 for b in v[1]) and _utf8(v[1])
         if t == 1:
             return len(v) == 1
+        if t == 9:
+            return len(v) == 2 and isinstance(v[1], int) and 0 <= v[1] <= 9
+        if t == 10:
+            return len(v) == 2 and _bytes(v[1])
+        if t == 11:
+            return len(v) == 3 and v[1] in (0, 1, 2) and valid_view(v[2], depth + 1)
+        if t == 12:
+            return len(v) == 2 and isinstance(v[1], list) and len(v[1]) <= 3 and all(valid_view(x, depth + 1) for x in v[1])
         if t == 2:
             a = v[2]
             return (len(v) == 4 and v[1] in (0, 1, 2) and isinstance(a, list) and len(a) == 5
@@ -307,20 +349,22 @@ def oracle(item, impl):
 
 # ------------------------------------------------------------------------------- known classes (syntactic)
 def class_edit(a, b):
-    """F-C03-c: an element rebuilt in place whose class:on toggle is on before and after: the class attribute is
-    written again from the class string and the toggle, unchanged, does not re-add its class"""
+    """F-C03-c (= not compat in Dom/ViewProofs.v): an element rebuilt in place whose class:on toggle was on: the class
+    attribute is written again from the class string, and the toggle only reacts to a change of its flag; wrong
+    exactly when, afterwards, `on` is wanted but not in the string (toggle unchanged) or in the string but removed
+    (toggle switched off)"""
     if a[0] != b[0]:
         return False
     t = a[0]
     if t == 2:
         if a[1] != b[1]:
             return False
-        if a[2][3] == 1 and b[2][3] == 1:
+        if a[2][3] == 1 and (b[2][3] == 1) != (b"on" in bytes(b[2][2]).split()):
             return True
         return class_edit(a[3], b[3])
-    if t == 3:
+    if t in (3, 12):
         return len(a[1]) == len(b[1]) and any(class_edit(x, y) for x, y in zip(a[1], b[1]))
-    if t == 4:
+    if t in (4, 11):
         return a[1] == b[1] and class_edit(a[2], b[2])
     if t == 5:
         return bool(a[1]) and bool(b[1]) and class_edit(a[1][0], b[1][0])
@@ -343,7 +387,7 @@ def classify(item, impl, model):
         # predicted by the model, and only in cases with a StaticVec
         # (cases with a keyed list are not modelled: there the StaticVec alone decides)
         predicted = model == [-9] or not item.get("compare", True)
-        return "F-C03-ab" if predicted and any(has(v, 7) for v in [v0] + vs) else None
+        return "F-C03-ab" if predicted and any(nodeless(v) for v in [v0] + vs) else None
     if isinstance(model, str):
         return None
     if item.get("compare", True) and impl != model:
@@ -357,7 +401,7 @@ def classify(item, impl, model):
     upto = seq[:step + 2]
     if any(class_edit(a, b) for a, b in zip(upto, upto[1:])):
         return "F-C03-c"
-    if any(has(v, 7) for v in upto):
+    if any(nodeless(v) for v in upto):
         return "F-C03-ab"
     return None
 
@@ -374,6 +418,14 @@ def show(v):
         return repr(C.show_bytes(v[1]))
     if t == 1:
         return "()"
+    if t == 9:
+        return "%di32" % v[1]
+    if t == 10:
+        return "&" + repr(C.show_bytes(v[1]))
+    if t == 11:
+        return "EitherOf3::" + "ABC"[v[1]] + "(" + show(v[2]) + ")"
+    if t == 12:
+        return "[" + ", ".join(show(x) for x in v[1]) + "; %d]" % len(v[1])
     if t == 2:
         a = v[2]
         attrs = ""
@@ -405,11 +457,12 @@ def describe(item):
 
 def coverage_extra(results):
     shapes = {}
-    names = ["text", "unit", "element", "tuple", "either", "option", "vec", "staticvec", "keyed"]
+    names = ["text", "unit", "element", "tuple", "either", "option", "vec", "staticvec", "keyed", "i32", "static-str",
+             "eitherof3", "array"]
     for r in results:
         npre, npost, v0, vs = r["item"]["case"]
         for v in [v0] + vs:
-            for code in range(9):
+            for code in range(13):
                 if has(v, code):
                     shapes[names[code]] = shapes.get(names[code], 0) + 1
     return {"values_containing": shapes}
